@@ -1,7 +1,7 @@
 \* intended switches; all families; section interleavings up to 3 sections
 CONSTANTS
   Switches <- Intended
-  Families = {"clause", "sections", "struct", "dup"}
+  Families = {"clause", "sections", "struct", "dup", "comments"}
   MaxSections = 3
 INIT Init
 NEXT Next
